@@ -993,6 +993,69 @@ theorem limits_not_switched_off (pre : Predef) (env : Env V) (n : Node J V) (hwf
 
 end layout
 
+/-! ### the layout clause along histories -/
+
+section layoutHistories
+open Frappy.ExtParams (Layer)
+open Frappy.Spec.C18 (AutoApplies)
+
+/-- every parameter `attr` of a module named `m` is equipped for the class layout `ls` -/
+def HasLayout (n : Node J V) (m attr : String) (ls : List Layer) : Prop :=
+  ∀ mod ∈ n, ∀ p, Acc.param p ∈ mod.accs → mod.name = m → p.attr = attr → p.checks = chainOf ls 0
+
+/-- the cache moves, the classes do not: storing a value leaves the layout untouched -/
+theorem hasLayout_setEntry (n : Node J V) (m attr : String) (ls : List Layer) (h : HasLayout n m attr ls)
+    (mod' attr' : String) (e : Entry V) : HasLayout (setEntry n mod' attr' e) m attr ls := by
+  intro mod hmod p hp hm ha
+  rw [setEntry_eq_map] at hmod
+  obtain ⟨mod0, hmod0, rfl⟩ := List.mem_map.1 hmod
+  rw [updMod_name] at hm
+  obtain ⟨a0, ha0, hEq⟩ := updMod_acc mod' attr' e mod0 _ hp
+  rcases hEq with hEq | hEq
+  · subst hEq; exact h mod0 hmod0 p ha0 hm ha
+  · cases a0 with
+    | param p0 =>
+      simp only [Acc.setEntry] at hEq
+      split at hEq
+      · injection hEq with hEq; subst hEq; exact h mod0 hmod0 p0 ha0 hm ha
+      · injection hEq with hEq; subst hEq; exact h mod0 hmod0 p ha0 hm ha
+    | command c => simp [Acc.setEntry] at hEq
+
+theorem hasLayout_step (pre : Predef) (env : Env V) (n : Node J V) (r : Request J V) (m attr : String) (ls : List Layer)
+    (h : HasLayout n m attr ls) : HasLayout (step pre env n r).node m attr ls := by
+  rcases step_node pre env n r with hn | ⟨mod, a, e, hn⟩
+  · rw [hn]; exact h
+  · rw [hn]; exact hasLayout_setEntry n m attr ls h mod a e
+
+/-- what `limits_not_switched_off` says of every `change` of a history, each judged on the node (cache, hence dynamic
+limits) left behind by the requests before it -/
+def LimitsEnforcedAlong (pre : Predef) (m attr : String) (ls : List Layer) : Node J V → List (Env V × Request J V) → Prop
+  | _, [] => True
+  | n, (env, r) :: rest =>
+    (∀ spec j w, r = .change spec j → (step pre env n r).calls = [DriverCall.write m attr w] →
+      ∃ mod p v, Accepted pre env n spec j mod p v w ∧ mod.name = m ∧ p.attr = attr ∧
+        ((∀ i, i < ls.length → ownAt ls i = true → env.chk mod.name attr i v ≠ .stop) → LimitsOK env mod attr v))
+    ∧ LimitsEnforcedAlong pre m attr ls (step pre env n r).node rest
+
+/-- **layout_histories.**  Along every history (requests that moved the limits included, hooks and drivers behaving
+differently at every step) of a node whose parameter `m:attr` belongs to a class hierarchy in which the automatic limit
+check applies: every `change` that reaches `write_<attr>` handed on a value inside the limits current at that moment,
+unless a programmer's hook took the decision over. -/
+theorem layout_histories (pre : Predef) (m attr : String) (ls : List Layer) (hauto : AutoApplies ls none) :
+    ∀ (h : List (Env V × Request J V)) (n : Node J V), Node.WF pre n → HasLayout n m attr ls →
+      LimitsEnforcedAlong pre m attr ls n h := by
+  intro h
+  induction h with
+  | nil => intro n _ _; trivial
+  | cons er rest ih =>
+    intro n hwf hlay
+    obtain ⟨env, r⟩ := er
+    refine ⟨fun spec j w hr hc => ?_, ih _ (wf_step pre env n hwf r) (hasLayout_step pre env n r m attr ls hlay)⟩
+    subst hr
+    exact limits_not_switched_off pre env n hwf spec j m attr w ls hlay hauto hc
+
+end layoutHistories
+
 /-! non-vacuity: `target_max` is introduced by a class that inherits a `check_target` hook from its base class
 (layout: most derived class declares `target_max`, its base defines `check_target`) -/
 
@@ -1073,5 +1136,14 @@ example : LayoutChecksOK env mL "target" 20 ls ∧ ¬ LayoutChecksOK env mL "tar
     · have h' : LimitsOK env mL "target" 60 := h
       revert h'
       decide +kernel
+
+open LayoutExample Example in
+/-- `layout_histories` on a history that first raises `target_max` (hypotheses satisfiable; the second request reaches the
+driver with 60 ≤ 80) -/
+example : LimitsEnforcedAlong pre "m" "target" ls nodeL
+    [(env, .change (.full "m" "target_max") 80), (env, .change (.full "m" "target") 60)] ∧
+    ((run pre nodeL [(env, .change (.full "m" "target_max") 80), (env, .change (.full "m" "target") 60)]).map (·.calls))
+      = [[], [DriverCall.write "m" "target" 60]] :=
+  ⟨layout_histories pre "m" "target" ls (by decide) _ nodeL wfL layL, by decide +kernel⟩
 
 end Frappy.Props.C04
